@@ -208,9 +208,14 @@ Section INST9.
   (* data follows the job: the documents and data files of a promised job that sits in a misnamed directory d are
      found, byte-identical, under its TRUE id j after repair() (restoring the id by overwriting the state point file of
      whatever directory carries the name j exchanges the jobs' documents) *)
+  (* another listed directory whose intact file names the same id j: two claimants of one id — which of them is "the"
+     job j cannot be told from the project, the clause below does not apply *)
+  Definition rival (j d : str) : bool :=
+    existsb (fun d' => negb (str_eqb d' d) && match target d' with Some t => str_eqb t j | None => false end) (c9_listing c).
+
   Definition follows (jd : str * str) : bool :=
     let '(j, d) := jd in
-    str_eqb j d ||
+    str_eqb j d || rival j d ||
     forallb (fun e => match fst e with
                       | w :: i :: rel =>
                           negb (str_eqb i d) ||
